@@ -91,6 +91,20 @@ def task(version, fixed, label):
 
 
 def task_fork4(digits, d4=None):
+    """a sampled fork (see _task_fork4): a fork the engine cannot finish within its memory cap is
+    reported as a declined sample, not as an inconclusive check"""
+    try:
+        return _task_fork4(digits, d4)
+    except MemoryError:
+        why = "memory cap"
+    except Exception as e:  # noqa: BLE001
+        if "out of memory" not in repr(e):
+            raise
+        why = "solver out of memory"
+    return {"extra": {"v4_real_scoring_forks_declined": 1, "v4_real_scoring_forks_declined_why": ["%s %r: %s" % ("".join(str(x) for x in digits), d4, why)]}}
+
+
+def _task_fork4(digits, d4=None):
     """v4 with REAL scoring inside one macrovector fork (the case split of C02): the rating the
     constructor stores, severities() and the JSON field are the official scale's rating of the
     score the same constructor reports - for every assignment of the fork"""
@@ -156,8 +170,8 @@ def task_fork4(digits, d4=None):
 
 
 def fork4_tasks():
-    """the fork tasks of C02 (same case split); quick tier: a seeded sample within a CPU budget,
-    thorough tier: all of them"""
+    """the fork tasks of C02 (same case split): a seeded sample within a CPU budget (quick: 900
+    estimated CPU seconds, thorough: 9,000)"""
     import json
     import os
     import random
@@ -177,8 +191,6 @@ def fork4_tasks():
         else:
             tasks.append((d,))
     total = len(tasks)
-    if C.tier() == "thorough":
-        return tasks, total
     try:
         costs = json.load(open(os.path.join(os.path.dirname(os.path.abspath(__file__)), "c02_costs.json")))
     except Exception:  # noqa: BLE001
@@ -186,11 +198,15 @@ def fork4_tasks():
     rng = random.Random(C.seed() + 9)
     order = list(tasks)
     rng.shuffle(order)
-    budget = float(os.environ.get("VERIF_C09_BUDGET_S", "900"))
+    # thorough tier: a much larger sample, still without the few fork tasks that need 10+ GB
+    # and minutes each (C02's complete run schedules those specially; their ratings are covered
+    # by the abstract-score run above)
+    budget = float(os.environ.get("VERIF_C09_BUDGET_S", "900" if C.tier() == "quick" else "9000"))
+    limit = 20 if C.tier() == "quick" else 60
     picked, spent = [], 0.0
     for t in order:
         c = 0.6 * costs.get(score4.task_label(t), 4.0) + 2.0
-        if c > 40 or spent + c > budget:
+        if c > limit or spent + c > budget:
             continue
         picked.append(t)
         spent += c
@@ -210,7 +226,10 @@ def main():
     f4, f4total = fork4_tasks()
     for r in C.run_tasks(task_fork4, f4):
         chk.absorb_dict(r)
-    chk.extra["v4_real_scoring_fork_tasks"] = "%d of %d" % (len(f4), f4total)
+    nd = int(chk.extra.get("v4_real_scoring_forks_declined", 0))
+    chk.extra["v4_real_scoring_fork_tasks"] = "%d of %d drawn, %d declined (memory)" % (len(f4), f4total, nd)
+    if f4 and nd * 2 > len(f4):
+        chk.inconclusive.append("v4 real scoring: %d of %d sampled forks exceeded the memory cap" % (nd, len(f4)))
     # summarise edge reachability
     for version in (2, 3, 4):
         key = "band_edges_reached_v%d" % version
@@ -220,7 +239,7 @@ def main():
         chk.extra[key] = {k: sorted(v) for k, v in agg.items()}
     chk.input_model = "M-ASSIGN for v2 (27 sessions) and v3 (48 sessions), real constructors; v4: real parse/fill-in, base_score abstracted to an arbitrary one-decimal float in [0,10] (every band edge is then explored; the v4 score's own well-formedness is checked in every fork of C02)"
     chk.input_model += "; v4 additionally with REAL scoring inside macrovector forks (case split of C02: %d of %d fork tasks in this tier): the rating is compared with the score the same constructor reports" % (len(f4), f4total)
-    chk.bounds = ["none on the metric domain for v2/v3 and for the v4 run with abstracted score; v4 with real scoring: the fork tasks listed above (quick tier: seeded sample within a CPU budget; thorough tier: all)"]
+    chk.bounds = ["none on the metric domain for v2/v3 and for the v4 run with abstracted score; v4 with real scoring: the fork tasks listed above (seeded sample within a CPU budget: 900 estimated CPU seconds in the quick tier, 9,000 in the thorough tier; the few fork tasks needing 10+ GB are left out)"]
     chk.outside = ["v4: relation between metrics and score (C02)", "strings outside the grammar (C04)"]
     chk.stubs = ["CVSS4.compute_base_score replaced by 'base_score := arbitrary element of {0.0, 0.1, ..., 10.0}'"]
     chk.assumptions = ["official scales typed in harness/objects.py (FIRST v3.1 section 5 / v4.0 section 6; NVD v2 ranges)",
